@@ -210,7 +210,7 @@ class PrefixReport:
         return rule.replace(self._old, self._new, 1)
 
     def _keep(self, rule):
-        return self._only is None or any(rule.startswith(x) for x in self._only)
+        return self._only is None or any(rule == x or rule.startswith(x + ".") for x in self._only)
 
     def _keepk(self, rule, key):
         return self._keep(rule) and (self._keys is None or self._keys(key))
@@ -257,7 +257,7 @@ def wants(rep, rule_prefix):
     r = rep
     while isinstance(r, PrefixReport):
         only = object.__getattribute__(r, "_only")
-        if only is not None and not any(x.startswith(rule_prefix) or rule_prefix.startswith(x) for x in only):
+        if only is not None and not any(x == rule_prefix or x.startswith(rule_prefix + ".") or rule_prefix.startswith(x + ".") for x in only):
             return False
         r = object.__getattribute__(r, "_o")
         # the outer report sees the renamed rule; an outer filter applies to the new name, which we cannot know here: keep
